@@ -18,6 +18,12 @@ rejected (any `Err`), never a panic or a hang, `acc` cases must succeed, eigenve
   `sym` requests (small symmetric integer matrices) are judged by the same accuracy oracle when the reference
   computation finds them inside the quantifier (then also a NoConvergence is a failure), otherwise like `term`.
   termination half (`term`): returning at all (Ok or Err) is the property; nothing numeric is required.
+  wide-angle half (`accw`, hardening 4): symmetric Q D Qᵀ with eigenvalues of both signs and the start vector 60..89 degrees
+    from the dominant eigenvector.  The statement's hypothesis is "not orthogonal", so the same accuracy oracle applies
+    (cosine ≥ 0.015 instead of 0.25; the proved theorem SV.Props.C13Accuracy needs 0.3 for ITS constant, the exact-arithmetic
+    contraction only needs more passes for a small cosine; measured on the documented method: 80 000 random and 400 tuned
+    cases stay below 0.09 of the residual bound and 0.04 of the eigenvalue bound).  A violation that the replica of the
+    documented method reproduces is classified as the open finding F-C13-coincidence (none seen), any other is a failure.
 
   Hardening halves (the statement says "every real square matrix", the symmetric case only bounds λ more tightly):
   `nsym` (exact S D S⁻¹ from integer data) and `gen` (triangular, Markov, small integer matrices), n ≤ 8: the
@@ -51,8 +57,13 @@ RULE = ("accuracy half: symmetric Q D Q^T (Q = random Givens products, exact sym
         "Markov matrices with dyadic entries, small integer matrices (all 2x2 over -3..3 in the thorough tier) -- residual clause in exact "
         "rationals, reference = exact characteristic polynomial + Graeffe root-radius bounds; termination half: zero, nilpotent, +-lambda pairs, rotation "
         "blocks, NaN/inf entries, zero row sums, random non-symmetric, n = 1..12, tolerances incl. 0, negative, NaN, subnormal, 1e-17..1e300, +-inf; "
+        "wide-angle half (accw): symmetric Q D Q^T, n = 2..6, eigenvalues of both signs, gap <= 0.49, the all-ones vector 60..89 degrees from "
+        "the dominant eigenvector (cosine >= 0.0175: 'not orthogonal'), the Rayleigh quotients cross zero; plain angles, angles tuned by "
+        "bisection (binary64 replica of the iteration in the generator) to a tie |r_k| = |r_(k-1)| of opposite signs to a relative "
+        "1e-3 tol..1e-14, and angles at which r_k lands on zero (1e-6..1e-16 of r_(k-1)); dominant eigenvalue next to round numbers "
+        "m(1 +- 2^-20..2^-50) with tolerances 1e-8..1e-12, gap exactly 1/2 and 1/2(1 - 2^-k); symmetric matrices with repeated rows/columns; "
         "shape half: all non-square/empty shapes 0..4 x 0..4 + every ragged row-length tuple 0..3 over 2 and 3 rows; every request through every "
-        "accepted container type (Vec<Vec<f64>>, &Vec<Vec<f64|f32|i32>>, &Arr2D<f64|f32|i32>); non-trivial = the model answers ok (an eigenpair was "
+        "accepted container type (Vec<Vec<f64>>, &Vec<Vec<f64|f32|i32>>, &Arr2D<f64|f32|i32>, &Arr2D<f64> with other histories: from_flat padded, reshape, clone_from into a larger object, transposed twice), N x 0 / 0 x N as N empty rows and their transposes; non-trivial = the model answers ok (an eigenpair was "
         "returned) or runs the loop to its cap; distinct = distinct request lines")
 
 C = 8
@@ -709,28 +720,41 @@ def accuracy(req, impl):
         return f"accuracy case did not return an eigenpair: {impl[:40]}", None
     tol = f_of_bits(esb)
     l1, ratio, cos = reference(abits, n)
-    if ratio > 0.5 + 1e-9 or cos < 0.25 or l1 == 0.0:
+    wide = half == "accw"
+    # the statement asks for a start vector "not orthogonal" to the dominant eigenvector; `accw` goes to 89 degrees
+    # (cosine 0.0175; 80 000 random and 400 tuned cases of the family: the documented method stays below 0.09 of the
+    # residual bound and 0.04 of the eigenvalue bound)
+    if ratio > 0.5 + 1e-9 or cos < (0.015 if wide else 0.25) or l1 == 0.0:
         return None, None            # outside the quantifier: not judged
     f, lam, vs, vb = parse_ok(impl, n)
     if f:
         return f, None
+    # a violated bound that the documented method itself produces (its only stopping test can fire by coincidence while
+    # the iterate is still far away) is the open finding F-C13-coincidence, classified by the replica like in the
+    # non-symmetric halves; only `accw` needs this (far from the eigenvector the quotients of a matrix with three or
+    # more eigenvalues need not be monotone) -- none was seen in any run
+    early = "the documented method itself stops early (successive Rayleigh quotients agree by coincidence): "
     # exact residual:  ‖Av − λv‖² ≤ C² tol λ² ‖v‖²
     bad, r_res, msg = residual(abits, n, lam, vs, tol)
     if bad:
+        if wide and same_pair(lam, vs, replica(abits, n, tol)):
+            return early + msg, (r_res, None)
         return msg + (first_pass(abits, n, tol, lam) or ""), (r_res, None)
     err = abs(lam - l1)
     bound = C * tol * abs(l1) + 1e-13 * abs(l1)
     r_lam = err / bound
     if err > bound:
-        return ("eigenvalue %.17g is %.3e from the dominant eigenvalue %.17g, more than C·tol·|λ₁| = %.3e (tol %.1e)"
-                % (lam, err, l1, C * tol * abs(l1), tol)
-                + (first_pass(abits, n, tol, lam) or "")), (r_res, r_lam)
+        msg = ("eigenvalue %.17g is %.3e from the dominant eigenvalue %.17g, more than C·tol·|λ₁| = %.3e (tol %.1e)"
+               % (lam, err, l1, C * tol * abs(l1), tol))
+        if wide and same_pair(lam, vs, replica(abits, n, tol)):
+            return early + msg, (r_res, r_lam)
+        return msg + (first_pass(abits, n, tol, lam) or ""), (r_res, r_lam)
     return None, (r_res, r_lam)
 
 
 def oracle(req, impl):
     half = req.split()[1]
-    if half in ("acc", "sym"):
+    if half in ("acc", "sym", "accw"):
         return accuracy(req, impl)[0]
     if half in ("nsym", "gen", "nsymbig", "accbig"):
         return accuracy_general(req, impl)[0]
